@@ -115,6 +115,13 @@ func genRetry(r *Rng, tier string, idx int, args map[string]string) []string {
 				}
 			}
 		}
+		// the same states under other spellings of the path (empty string, through a missing directory, trailing slash)
+		for _, sp := range []string{"unset", "dotdot", "slash"} {
+			ops = append(ops, "load "+genSpec(r, "good")+" "+sp+" "+genSpec(r, Pick(r, retryBaseKinds)))
+			if sp != "slash" {
+				ops = append(ops, "load "+sp+" "+genSpec(r, Pick(r, retryBaseKinds))+" missing")
+			}
+		}
 	case "default":
 		// the CLI's configuration (100 ms base delay): only a few loads, one of them retried
 		ops = append(ops, "cfg default", "load good:2 good:1 missing", "load good:2 missing good:1", "load missing good:1 good:1",
@@ -195,6 +202,7 @@ type fileSpec struct {
 	k     int    // entries of a good file
 	flaky int    // >0 or flakySet: behaves like kind for the first `flaky` attempts, then good:k
 	isFl  bool
+	spell string // how a path of that state is SPELLED in the call: "" (the plain path) | unset | dotdot | slash
 }
 
 func parseSpec(s string) (fileSpec, bool) {
@@ -202,6 +210,13 @@ func parseSpec(s string) (fileSpec, bool) {
 	switch f[0] {
 	case "missing", "denied", "dir", "bad", "mistyped", "loop":
 		return fileSpec{kind: f[0]}, len(f) == 1
+	case "unset", "dotdot":
+		// spellings of a file that is not there: the empty path; a path through a directory that does not exist
+		// followed by ".." (the kernel refuses it although a purely lexical clean-up would arrive at a good file)
+		return fileSpec{kind: "missing", spell: f[0]}, len(f) == 1
+	case "slash":
+		// a good file named with a trailing slash: ENOTDIR, neither missing nor denied
+		return fileSpec{kind: "loop", spell: f[0]}, len(f) == 1
 	case "good":
 		if len(f) != 2 {
 			return fileSpec{}, false
@@ -501,10 +516,14 @@ func execLoad(env *retryEnv, mon *Mon, op, ms, ps, bs string) string {
 	specs := [3]fileSpec{}
 	for i, s := range []string{ms, ps, bs} {
 		sp, ok := parseSpec(s)
-		if !ok || (i == 2 && sp.isFl) {
+		if !ok || (i == 2 && (sp.isFl || sp.spell != "")) {
 			return "bad-op"
 		}
 		specs[i] = sp
+	}
+	if specs[0].spell != "" && (specs[2].kind != "missing" || specs[0].spell == "slash") {
+		// the backup path is derived from the spelling of the main path
+		return "bad-op"
 	}
 	dir, err := os.MkdirTemp("", "wtfverif-c15-")
 	if err != nil {
@@ -534,6 +553,27 @@ func execLoad(env *retryEnv, mon *Mon, op, ms, ps, bs string) string {
 			}
 		}
 	}
+	callPaths := [2]string{paths[0], paths[1]}
+	for i := 0; i < 2; i++ {
+		switch specs[i].spell {
+		case "unset":
+			callPaths[i] = ""
+		case "dotdot":
+			// a loadable file is what a lexical clean-up of the spelled path would find
+			if err := putFile(paths[i], "good", "z", 2); err != nil {
+				return "setup-failed:" + strings.ReplaceAll(err.Error(), " ", "_")
+			}
+			callPaths[i] = dir + "/no-such-dir/../" + filepath.Base(paths[i])
+		case "slash":
+			if err := putFile(paths[i], "good", "z", 2); err != nil {
+				return "setup-failed:" + strings.ReplaceAll(err.Error(), " ", "_")
+			}
+			callPaths[i] = paths[i] + "/"
+		}
+		if specs[i].spell != "" {
+			mon.Tag("spelled." + specs[i].spell)
+		}
+	}
 
 	dr := recovery.NewDatabaseRecovery(env.cfg)
 	var db *database.Database
@@ -557,7 +597,7 @@ func execLoad(env *retryEnv, mon *Mon, op, ms, ps, bs string) string {
 			}
 		}
 		defer func() { recovery.VerifAttemptObserver = nil }()
-		printed = captureStdout(func() { db, lerr = dr.LoadDatabaseWithFallback(paths[0], paths[1]) })
+		printed = captureStdout(func() { db, lerr = dr.LoadDatabaseWithFallback(callPaths[0], callPaths[1]) })
 	}
 	if needDenied {
 		if !asUnprivileged(probe, run) {
